@@ -4,7 +4,9 @@
 From Coq Require Import Reals ZArith List.
 From Coquelicot Require Import Coquelicot.
 From Celer Require Import Base.Num Base.NumR Base.Vec3
-  C08.PropagatorModel C08.PropagatorProofs C08.DriverModel C08.DriverProofs C08.Helix C08.HelixProofs.
+  C08.PropagatorModel C08.PropagatorProofs C08.DriverModel C08.DriverProofs C08.Helix C08.HelixProofs
+  C08.HelixGeneralProofs C08.ControllerProofs C08.HistoryProofs C08.StepperBase Generated.C08_steppers C08.Steppers C08.StepperProofs.
+Import ListNotations.
 Local Open Scope R_scope.
 
 (** [prop_contracts] (C08/PropagatorProofs.v) = valid options, step > 0, the
@@ -148,3 +150,238 @@ Theorem C08_driver_step_in_range :
   0 < d_step (snd res) <= step /\ (forall c, fst (fst res) = Some c -> 0 < c).
 Proof. exact advance_range. Qed.
 Print Assumptions C08_driver_step_in_range.
+
+(** ** the numerical integrators (models regenerated from RungeKuttaStepper.hh /
+    DormandPrinceStepper.hh by translators/steppers.py; MagFieldEquation in
+    C08/Helix.v + C08/Steppers.v) *)
+
+(** MagFieldEquation: dp/ds is orthogonal to p (so |p| is conserved to first
+    order) and to B, for every field functor, coefficient and state; dx/ds is
+    the unit direction *)
+Theorem C08_lorentz_force_orthogonal :
+  forall (coeffi : R) (field : vec3 R -> vec3 R) (y : ode R),
+  dot (o_mom (mfe_rhs coeffi field y)) (o_mom y) = 0
+  /\ dot (o_mom (mfe_rhs coeffi field y)) (field (o_pos y)) = 0
+  /\ (0 < norm (o_mom y) -> norm (o_pos (mfe_rhs coeffi field y)) = 1).
+Proof. exact mfe_force_orthogonal. Qed.
+Print Assumptions C08_lorentz_force_orthogonal.
+
+(** the Lorentz coefficient has the sign of the charge and is odd in it *)
+Theorem C08_lorentz_coefficient_charge_sign :
+  forall e_native mevc_native q : R, 0 < e_native -> 0 < mevc_native ->
+  (0 < q -> 0 < mfe_coeffi e_native mevc_native q) /\
+  (q < 0 -> mfe_coeffi e_native mevc_native q < 0) /\
+  (q = 0 -> mfe_coeffi e_native mevc_native q = 0) /\
+  mfe_coeffi e_native mevc_native (- q) = - mfe_coeffi e_native mevc_native q.
+Proof. exact mfe_coeffi_sign. Qed.
+Print Assumptions C08_lorentz_coefficient_charge_sign.
+
+(** RungeKuttaStepper::do_step is the classical 4th-order formula *)
+Theorem C08_rk4_classical_formula :
+  forall (rhs : ode R -> ode R) (h : R) (y k1 : ode R),
+  let k2 := rhs (oadd y (oscale (h / 2) k1)) in
+  let k3 := rhs (oadd y (oscale (h / 2) k2)) in
+  let k4 := rhs (oadd y (oscale h k3)) in
+  rk_do_step rhs h y k1
+  = oadd y (oscale (h / 6) (oadd (oadd k1 (oscale 2 k2)) (oadd (oscale 2 k3) k4))).
+Proof. exact rk_do_step_classical. Qed.
+Print Assumptions C08_rk4_classical_formula.
+
+(** step doubling: mid = one half step, err = (two half steps) - (one full
+    step), end = two half steps + err/15 *)
+Theorem C08_rk4_step_doubling_error :
+  forall (rhs : ode R -> ode R) (h : R) (y : ode R),
+  let y_half := rk_do_step rhs (h / 2) y (rhs y) in
+  let y2 := rk_do_step rhs (h / 2) y_half (rhs y_half) in
+  let y1 := rk_do_step rhs h y (rhs y) in
+  s_mid (rk_step rhs h y) = y_half /\
+  s_err (rk_step rhs h y) = osub y2 y1 /\
+  s_end (rk_step rhs h y) = oadd y2 (oscale (/ 15) (osub y2 y1)).
+Proof. exact rk_step_doubling. Qed.
+Print Assumptions C08_rk4_step_doubling_error.
+
+(** a right-hand side that is constant on an invariant [Q] of the straight line:
+    both steppers return the exact end and mid states and a zero error estimate *)
+Theorem C08_steppers_exact_for_constant_rhs :
+  forall (rhs : ode R -> ode R) (Q : ode R -> Prop) (k : ode R),
+  (forall y, Q y -> rhs y = k) -> (forall a y, Q y -> Q (oadd y (oscale a k))) ->
+  forall h y, Q y ->
+  (s_mid (rk_step rhs h y) = oadd y (oscale (h / 2) k) /\
+   s_end (rk_step rhs h y) = oadd y (oscale h k) /\ s_err (rk_step rhs h y) = ozero) /\
+  (s_mid (dp_step rhs h y) = oadd y (oscale (h / 2) k) /\
+   s_end (dp_step rhs h y) = oadd y (oscale h k) /\ s_err (dp_step rhs h y) = ozero).
+Proof.
+  intros rhs Q k Hc Hl h y Hy.
+  exact (conj (rk_step_const rhs Q k Hc Hl h y Hy) (dp_step_const rhs Q k Hc Hl h y Hy)).
+Qed.
+Print Assumptions C08_steppers_exact_for_constant_rhs.
+
+(** zero curvature (neutral particle or zero field): exact straight line, zero error *)
+Theorem C08_steppers_straight_line_zero_curvature :
+  forall (coeffi : R) (field : vec3 R -> vec3 R) (h : R) (y : ode R),
+  (coeffi = 0 \/ forall p, field p = V3 0 0 0) ->
+  let k := Ode (vscale (1 / norm (o_mom y)) (o_mom y)) (V3 0 0 0) in
+  (s_mid (rk4_mag coeffi field h y) = oadd y (oscale (h / 2) k) /\
+   s_end (rk4_mag coeffi field h y) = oadd y (oscale h k) /\
+   s_err (rk4_mag coeffi field h y) = ozero) /\
+  (s_mid (dp_mag coeffi field h y) = oadd y (oscale (h / 2) k) /\
+   s_end (dp_mag coeffi field h y) = oadd y (oscale h k) /\
+   s_err (dp_mag coeffi field h y) = ozero).
+Proof. exact mag_steppers_straight_line. Qed.
+Print Assumptions C08_steppers_straight_line_zero_curvature.
+
+(** DormandPrinceStepper computes the explicit Runge-Kutta scheme of the tableau
+    (dpA, dpb, dpd, dpw) built from its literal constants *)
+Theorem C08_dormand_prince_is_tableau :
+  forall (rhs : ode R -> ode R) (h : R) (y : ode R),
+  let ks := erk_stages rhs h y dpA [] in
+  length ks = 7%nat /\
+  s_end (dp_step rhs h y) = lincomb h dpb ks y /\
+  s_err (dp_step rhs h y) = lincomb h dpd ks ozero /\
+  s_mid (dp_step rhs h y) = lincomb h dpw ks y.
+Proof. exact dp_step_is_tableau. Qed.
+Print Assumptions C08_dormand_prince_is_tableau.
+
+(** tableau consistency: every row sums to its node c = (0,1/5,3/10,4/5,8/9,1,1);
+    the error weights sum to zero *)
+Theorem C08_dormand_prince_tableau_consistent :
+  nodes dpA = [0; 1 / 5; 3 / 10; 4 / 5; 8 / 9; 1; 1] /\ lsum dpd = 0.
+Proof. exact (conj dp_row_sums dp_error_weights). Qed.
+Print Assumptions C08_dormand_prince_tableau_consistent.
+
+(** the end state satisfies all 17 rooted-tree order conditions up to order 5,
+    the embedded solution (end - err) the 8 conditions up to order 4, the mid
+    point the 4 conditions up to order 3 at theta = 1/2 *)
+Theorem C08_dormand_prince_order_conditions :
+  (order1 dpA dpb 1 /\ order2 dpA dpb 1 /\ order3 dpA dpb 1 /\ order4 dpA dpb 1 /\ order5 dpA dpb 1) /\
+  (order1 dpA dpbhat 1 /\ order2 dpA dpbhat 1 /\ order3 dpA dpbhat 1 /\ order4 dpA dpbhat 1) /\
+  (order1 dpA dpw (1 / 2) /\ order2 dpA dpw (1 / 2) /\ order3 dpA dpw (1 / 2)).
+Proof. exact (conj dp_order5 (conj dp_embedded_order4 dp_midpoint_order3)). Qed.
+Print Assumptions C08_dormand_prince_order_conditions.
+
+(** ** ZHelixStepper::operator() for a GENERAL start state and both helicities,
+    as the code computes radius and helicity from the right-hand side: the end
+    momentum is always the exact one; the x,y end position is the exact one plus
+    (Rz(-kappa s) - I) applied to the gyration centre; z is exact for kappa < 0
+    and 2 s u_z behind for kappa > 0 (kappa = coeffi*Bz/|p|).  [vy mom <> 0] is
+    the condition under which the code's helicity expression is not 0/0. *)
+Theorem C08_helix_general :
+  forall (c bz : R) (beg : ode R),
+  0 < norm (o_mom beg) -> 0 < vx (o_mom beg) * vx (o_mom beg) + vy (o_mom beg) * vy (o_mom beg) ->
+  c * bz <> 0 -> forall s, vy (o_mom beg) <> 0 ->
+  let kappa := c * bz / norm (o_mom beg) in
+  let u := o_pos (lorentz_rhs c (V3 0 0 bz) beg) in
+  let e := s_end (zhelix_step c bz s beg) in
+  let th := - (kappa * s) in
+  vx (o_mom e) = ex_ux kappa u s * norm (o_mom beg) /\
+  vy (o_mom e) = ex_uy kappa u s * norm (o_mom beg) /\
+  vz (o_mom e) = vz u * norm (o_mom beg) /\
+  vx (o_pos e) = ex_x kappa (o_pos beg) u s
+                 + (vx (rotz th (gyro_centre c bz beg)) - vx (gyro_centre c bz beg)) /\
+  vy (o_pos e) = ex_y kappa (o_pos beg) u s
+                 + (vy (rotz th (gyro_centre c bz beg)) - vy (gyro_centre c bz beg)) /\
+  vz (o_pos e) = ex_z (o_pos beg) u s - (if Rltb 0 kappa then 2 * s * vz u else 0).
+Proof. exact zhelix_step_general. Qed.
+Print Assumptions C08_helix_general.
+
+(** hence the end position is exact iff (the rotation is trivial or the gyration
+    centre is on the z axis) and (kappa < 0 or nothing moves along z) *)
+Theorem C08_helix_endpoint_exact_iff :
+  forall (c bz : R) (beg : ode R),
+  0 < norm (o_mom beg) -> 0 < vx (o_mom beg) * vx (o_mom beg) + vy (o_mom beg) * vy (o_mom beg) ->
+  c * bz <> 0 -> forall s, vy (o_mom beg) <> 0 ->
+  let kappa := c * bz / norm (o_mom beg) in
+  let u := o_pos (lorentz_rhs c (V3 0 0 bz) beg) in
+  let e := s_end (zhelix_step c bz s beg) in
+  (vx (o_pos e) = ex_x kappa (o_pos beg) u s /\ vy (o_pos e) = ex_y kappa (o_pos beg) u s
+   /\ vz (o_pos e) = ex_z (o_pos beg) u s)
+  <-> ((cos (kappa * s) = 1 \/ (vx (gyro_centre c bz beg) = 0 /\ vy (gyro_centre c bz beg) = 0))
+       /\ (0 < kappa -> s * vz u = 0)).
+Proof. exact zhelix_step_exact_iff. Qed.
+Print Assumptions C08_helix_endpoint_exact_iff.
+
+(** the defect of finding F-C08-1, exactly: squared x,y distance from the helix
+    = 2 (1 - cos(kappa s)) |centre|^2; z defect = -2 s u_z when kappa > 0 *)
+Theorem C08_helix_defect_exact :
+  forall (c bz : R) (beg : ode R) (s : R),
+  0 < norm (o_mom beg) -> 0 < vx (o_mom beg) * vx (o_mom beg) + vy (o_mom beg) * vy (o_mom beg) ->
+  c * bz <> 0 -> vy (o_mom beg) <> 0 ->
+  let kappa := c * bz / norm (o_mom beg) in
+  let u := o_pos (lorentz_rhs c (V3 0 0 bz) beg) in
+  let e := s_end (zhelix_step c bz s beg) in
+  let C := gyro_centre c bz beg in
+  (vx (o_pos e) - ex_x kappa (o_pos beg) u s) ^ 2 + (vy (o_pos e) - ex_y kappa (o_pos beg) u s) ^ 2
+    = 2 * (1 - cos (kappa * s)) * (vx C ^ 2 + vy C ^ 2)
+  /\ (0 < kappa -> vz (o_pos e) - ex_z (o_pos beg) u s = - (2 * s * vz u))
+  /\ (kappa < 0 -> vz (o_pos e) = ex_z (o_pos beg) u s).
+Proof. exact zhelix_defect_exact. Qed.
+Print Assumptions C08_helix_defect_exact.
+
+(** ** the step-size controller stays within the factors coded in the options
+    (safety in (0,1), pgrow < 0, pshrink < 0, max_stepping_decrease in (0,1),
+    max_stepping_increase > 1: FieldDriverOptions validation).
+    new_step_scale: a rejected trial (err_sq > 1) gives 0 < scale < safety, an
+    accepted one (0 <= err_sq <= 1) gives scale >= safety.
+    one_good_step: step * max_stepping_decrease^max_nsteps <= end.step <= step;
+    proposed <= max_stepping_increase * end.step; on success the returned state
+    was integrated over exactly end.step with err_sq <= 1 and
+    proposed >= safety * end.step; on budget exhaustion proposed <= safety * end.step *)
+Theorem C08_step_controller_bounds :
+  forall (S : Type) (stepper : S -> R -> ode R -> S * sres R) (o : dopts R),
+  0 < safety o < 1 -> pgrow o < 0 -> pshrink o < 0 -> 0 < max_stepping_decrease o < 1 ->
+  1 < max_stepping_increase o ->
+  (forall e, 1 < e -> 0 < new_step_scale o e < safety o) /\
+  (forall e, 0 <= e <= 1 -> safety o <= new_step_scale o e) /\
+  forall s step st, 0 < step ->
+    let ig := snd (one_good_step S stepper o s step st) in
+    step * max_stepping_decrease o ^ (Datatypes.S (pred (max_nsteps o))) <= ig_step ig <= step
+    /\ ig_proposed ig <= ig_step ig * max_stepping_increase o
+    /\ (ig_ok ig = true -> exists s0 r, r = snd (stepper s0 (ig_step ig) st) /\ ig_state ig = s_end r
+          /\ err_sq_of o r (ig_step ig) (o_mom st) <= 1
+          /\ (0 <= err_sq_of o r (ig_step ig) (o_mom st) -> ig_step ig * safety o <= ig_proposed ig))
+    /\ (ig_ok ig = false -> ig_proposed ig <= ig_step ig * safety o).
+Proof.
+  intros S stepper o H1 H2 H3 H4 H5.
+  exact (conj (nss_reject o H1 H3) (conj (nss_accept o H1 H2)
+          (fun s step st Hs => ogs_bounds S stepper o H1 H2 H3 H4 H5 (pred (max_nsteps o)) s step st Hs))).
+Qed.
+Print Assumptions C08_step_controller_bounds.
+
+(** the UNCONDITIONAL sagitta bound is false (finding F-C08-4): for every trial
+    budget max_nsteps >= 1 and otherwise default options there is a stepper for
+    which find_next_chord returns a chord whose sagitta exceeds
+    delta_chord + dchord_tol *)
+Theorem C08_chord_sagitta_bounded_refuted : forall n : nat, (1 <= n)%nat ->
+  exists (o : dopts R) (step : R) (st : ode R),
+    max_nsteps o = n /\ 0 < minimum_step o /\ 0 < delta_chord o /\ 0 < epsilon_step o
+    /\ 0 < max_stepping_decrease o < 1 /\ 0 < step /\
+    let cs := snd (find_next_chord unit bad_stepper o tt step st) in
+    0 < fc_step cs <= step /\ fc_state cs = s_end (fc_last cs) /\
+    delta_chord o + dchord_tol
+      < distance_chord (o_pos st) (o_pos (s_mid (fc_last cs))) (o_pos (fc_state cs)).
+Proof. exact chord_sagitta_bounded_refuted. Qed.
+Print Assumptions C08_chord_sagitta_bounded_refuted.
+
+(** ** the propagator as a state machine across calls: for every history of
+    propagate(step) calls on ONE FieldPropagator object (driver state, geometry
+    state and the private ODE state threaded from call to call), after EVERY call
+    the internal position equals the geometry's position and the geometry's
+    direction is the unit vector of the internal momentum (which stays non-zero).
+    Hypotheses: the per-call contracts and the geometry's get/set contract. *)
+Theorem C08_propagator_state_synced :
+  forall (D G : Type) (advance : D -> R -> ode R -> D * dres R) (g_pos g_dir : G -> vec3 R)
+         (g_on_boundary : G -> bool) (g_set_dir : G -> vec3 R -> G) (g_find_next : G -> R -> G * lin R)
+         (g_move_internal : G -> vec3 R -> G) (g_move_to_boundary : G -> G) (o : popts R),
+  (forall g p, g_pos (g_move_internal g p) = p) ->
+  (forall g d, g_pos (g_set_dir g d) = g_pos g) ->
+  (forall g d, g_dir (g_set_dir g d) = d) ->
+  (forall g p, g_dir (g_move_internal g p) = g_dir g) ->
+  forall steps fuel d g st rs,
+  List.Forall (fun step => prop_contracts D G advance g_on_boundary g_set_dir g_find_next g_move_internal
+                        g_move_to_boundary o step) steps ->
+  0 < norm (o_mom st) ->
+  run_history D G advance g_pos g_on_boundary g_set_dir g_find_next g_move_internal g_move_to_boundary
+    o fuel d g st steps = Some rs ->
+  List.Forall (fun r => synced G g_pos g_dir (r_g r) (r_state r) /\ 0 < norm (o_mom (r_state r))) rs.
+Proof. exact propagator_state_synced. Qed.
+Print Assumptions C08_propagator_state_synced.
